@@ -1,13 +1,13 @@
 //! Case kind INCL (property C16): loading through /include, writing next to the sources, merge_includes.
 //!
-//! case   ::= ( ( <file>* ) s<main relative path> i<strict 0|1> s<flattened text or empty> )
+//! case   ::= ( ( <file>* ) s<main relative path> i<strict 0|1> s<flattened text or empty> [ ( <op>* ) ] )
 //! file   ::= ( s<relative path> s<file bytes> )          a path that ends in '/' creates a directory
 //! answer ::= ( sOK <node A2lFile> ( s<diagnostic>* ) s<write_to_string()> <reload> <merged> <flat> )
 //!          | ( sERR s<A2lError variant> s<display text> s<inner variant> <flat alone> )     a2lfile::load failed
 //!              flat alone ::= ( ) | ( sOK ( s<diagnostic>* ) ) | ( sERR s<message> s<variant> s<inner variant> ) | ( sPANIC s<stage> )
 //!              (variant "Harness": the case could not be set up, e.g. a path leaves the case directory)
 //!          | ( sPANIC s<stage> )
-//! reload ::= ( sOK i<model equal> i<text equal> s<bytes of the written file> )
+//! reload ::= ( sOK i<model equal> i<text equal> s<bytes of the written file> s<text written from the reloaded model> )
 //!          | ( sERR s<message> s<variant> s<inner variant> s<bytes of the written file> ) | ( sPANIC s<stage> )
 //!            the model is written with A2lFile::write to "<dir of main>/__written.a2l" and that file is loaded
 //! merged ::= ( sOK s<text> i<text contains "/include"> i<load_from_string(text) == loaded model>
@@ -154,9 +154,9 @@ fn reload(file: &A2lFile, text1: &str, main: &Path, strict: bool) -> Sx {
             Sx::L(v)
         }
         Ok(Ok((again, _))) => {
-            match catch_unwind(AssertUnwindSafe(|| (again == *file, again.write_to_string() == text1))) {
+            match catch_unwind(AssertUnwindSafe(|| (again == *file, again.write_to_string()))) {
                 Err(_) => panic_at("reload-compare"),
-                Ok((meq, teq)) => Sx::L(vec![Sx::s("OK"), Sx::b(meq), Sx::b(teq), Sx::S(written)]),
+                Ok((meq, text2)) => Sx::L(vec![Sx::s("OK"), Sx::b(meq), Sx::b(text2 == text1), Sx::S(written), Sx::s(&text2)]),
             }
         }
     }
@@ -278,6 +278,28 @@ fn run_inner(case: &Sx) -> Sx {
         }
         Ok(Ok(v)) => v,
     };
+    // optional fifth item: edits through the public API before anything is written
+    //   op ::= ( spush i<kind> s<name> ) | ( ssni ) | ( ssort )      (kinds as in edit.rs; the first MODULE is edited)
+    let mut file = file;
+    if let Some(Sx::L(ops)) = c.get(4) {
+        for op in ops {
+            let o = op.as_list();
+            let what = o[0].as_str();
+            let r = catch_unwind(AssertUnwindSafe(|| match what.as_str() {
+                "push" => {
+                    if !file.project.module.is_empty() {
+                        crate::edit::push_new(&mut file.project.module[0], o[1].as_int() as usize, o[2].as_str());
+                    }
+                }
+                "sni" => file.sort_new_items(),
+                "sort" => file.sort(),
+                _ => {}
+            }));
+            if r.is_err() {
+                return panic_at("edit");
+            }
+        }
+    }
     let Ok(dump) = catch_unwind(AssertUnwindSafe(|| dump_a2lfile(&file))) else {
         return panic_at("dump");
     };
